@@ -124,6 +124,13 @@ ALL = [
     # one distribution object handed to several slots: every (node, class) stream still consumes its own copy
     mk('shared_distribution_objects', [I(1), I(2)], [seq(1.0, 2.0, 4.0), seq(1.0, 2.0, 4.0)], [seq(0.5, 1.5, 0.25), seq(0.5, 1.5, 0.25)], TM([[0.0, 0.0], [0.0, 0.0]]),
        batching={'C0': [seq(1, 2, 1, 3), seq(1, 2, 1, 3)]}, share_objects=True, T=40.0),
+    # reproducers of the two open state-corrupting findings: every check in whose scope they lie meets the trigger on every run
+    # and prints its KNOWN-FINDING line (the run is judged up to the trigger)
+    mk('K2_preemptive_shift_end_hits_blocked_customer', [SCH([1, 0, 1], [8, 20, 100], preempt='resume'), I(1)],
+       {'A': [seq(5.0, 1000), seq(1.0, 1000)], 'B': [None, None]}, {'A': [det(1), det(11)], 'B': [det(1), det(1)]}, TM([[0.0, 1.0], [0.0, 0.0]]),
+       classes=['A', 'B'], priorities={'A': 0, 'B': 1}, prio_preempt=[False, 'resume'], qcap=[INF, 0], tracker='NaiveBlocking', T=40.0),
+    mk('K19_reroute_back_into_the_rerouting_node', [I(1)], {'A': [seq(2.0, 1000)], 'B': [seq(1.0, 1000)]}, {'A': [det(2)], 'B': [det(5)]},
+       {'A': TM([[0.0]]), 'B': TM([[1.0]])}, classes=['A', 'B'], priorities={'A': 0, 'B': 1}, prio_preempt=['reroute'], tracker='NodePopulation', T=20.0),
     # stop by customer count
     mk('count_complete_with_reneging', [I(1)], [det(1.0)], [det(2.5)], TM([[0.0]]), reneging={'C0': [det(2.0)]}, run={'method': 'customers', 'n': 6, 'cmethod': 'Complete', 'T': 0}),
     mk('count_accept_with_baulking', [I(1)], [det(1.0)], [det(2.5)], TM([[0.0]]), baulking={'C0': [{'b': 'thresh', 'k': 2}]}, run={'method': 'customers', 'n': 6, 'cmethod': 'Accept', 'T': 0}),
